@@ -433,7 +433,8 @@ pub fn check_case(ctx: &mut Ctx, case: &Case, cfg: &Cfg, props: &[String], want_
 
     // ---- the base call (not needed by the properties of the scanner and parser alone)
     if !props.iter().any(|p| !matches!(p.as_str(), "C13" | "C14")) {
-        if want_session {
+        // (a flagged case is recorded as well: TLC re-decides it)
+        if want_session || !res.viols.is_empty() {
             let r = Run { text: text.clone(), cfg: cfg.clone(), cursors_in: vec![], out: Ok(String::new()), cursors_out: vec![], events: vec![] };
             res.session.calls.push(scan_only_call_json(&r, wf));
         }
